@@ -17,6 +17,7 @@ import Driver.OpsLatToric2DCode
 import Driver.OpsLatToric3DCode
 import Driver.OpsLatXCubeCode
 import Driver.OpsMask
+import Driver.OpsMbp
 import Driver.OpsNoise
 import Driver.OpsSim
 import Driver.OpsSweep
@@ -28,7 +29,7 @@ open Panqec
     (`none` = not my op); the first that answers wins. -/
 
 def handlers : List (List String → Option String) :=
-  [Drv.handleAnalysis, Drv.handleBatch, Drv.handleBits, Drv.handleCli, Drv.handleCode, Drv.handleDecoders, Drv.handleDeform, Drv.handleDist, Drv.handleGui, Drv.handleLatPlanar2DCode, Drv.handleLatPlanar3DCode, Drv.handleLatRotatedPlanar2DCode, Drv.handleLatRotatedPlanar3DCode, Drv.handleLatToric2DCode, Drv.handleLatToric3DCode, Drv.handleLatXCubeCode, Drv.handleMask, Drv.handleNoise, Drv.handleSim, Drv.handleSweep, Drv.handleXCube]
+  [Drv.handleAnalysis, Drv.handleBatch, Drv.handleBits, Drv.handleCli, Drv.handleCode, Drv.handleDecoders, Drv.handleDeform, Drv.handleDist, Drv.handleGui, Drv.handleLatPlanar2DCode, Drv.handleLatPlanar3DCode, Drv.handleLatRotatedPlanar2DCode, Drv.handleLatRotatedPlanar3DCode, Drv.handleLatToric2DCode, Drv.handleLatToric3DCode, Drv.handleLatXCubeCode, Drv.handleMask, Drv.handleMbp, Drv.handleNoise, Drv.handleSim, Drv.handleSweep, Drv.handleXCube]
 
 def handleToks (toks : List String) : String :=
   match handlers.findSome? (fun h => h toks) with
